@@ -88,45 +88,73 @@ func (g *IG) loopFormAt(z *Polyizer, b *ssa.BasicBlock) (*LoopForm, bool) {
 		env[phi] = z.Of(lf.Init[phi]).add(polyAtom(loopT).mul(polyConst(step)), 1)
 	}
 	z.env = env
-	// exit test: the header's terminating If with one successor outside the body
-	if ifi, ok := h.Instrs[len(h.Instrs)-1].(*ssa.If); ok && len(h.Succs) == 2 {
+	// exit test: the test of the induction variables that leaves the loop. It is
+	// usually the header's If; with a compound condition (err == nil && i < n)
+	// it can be a later block. Other exits (an error return, a break) do not
+	// involve T and only make the loop end earlier.
+	var tests []int
+	for blk := range body {
+		ifi, ok := blk.Instrs[len(blk.Instrs)-1].(*ssa.If)
+		if !ok || len(blk.Succs) != 2 {
+			continue
+		}
 		stayK := -1
-		if body[h.Succs[0]] && !body[h.Succs[1]] {
+		if body[blk.Succs[0]] && !body[blk.Succs[1]] {
 			stayK = 0
-		} else if body[h.Succs[1]] && !body[h.Succs[0]] {
+		} else if body[blk.Succs[1]] && !body[blk.Succs[0]] {
 			stayK = 1
 		}
-		if stayK >= 0 {
-			lf.Exit = g.Idx[ifi]
-			if f, ok := condFact(ifi.Cond, stayK == 0); ok && f.Y != nil {
-				l, r := z.Of(f.X), z.Of(f.Y)
-				var d Poly
-				switch f.Op {
-				case token.LSS:
-					d = r.add(l, -1)
-				case token.GTR:
+		if stayK < 0 {
+			continue
+		}
+		f, ok := condFact(ifi.Cond, stayK == 0)
+		if !ok || f.Y == nil || !isIntegral(f.X.Type()) {
+			continue
+		}
+		l, r := z.Of(f.X), z.Of(f.Y)
+		var d Poly
+		switch f.Op {
+		case token.LSS:
+			d = r.add(l, -1)
+		case token.GTR:
+			d = l.add(r, -1)
+		case token.LEQ:
+			d = r.add(l, -1).add(polyConst(1), 1)
+		case token.GEQ:
+			d = l.add(r, -1).add(polyConst(1), 1)
+		case token.NEQ:
+			d = r.add(l, -1)
+			if _, c, ok := splitT(d); ok {
+				if k, isC := c.isConst(); isC && k == 1 {
 					d = l.add(r, -1)
-				case token.LEQ:
-					d = r.add(l, -1).add(polyConst(1), 1)
-				case token.GEQ:
-					d = l.add(r, -1).add(polyConst(1), 1)
-				case token.NEQ:
-					d = r.add(l, -1)
-					if _, c, ok := splitT(d); ok {
-						if k, isC := c.isConst(); isC && k == 1 {
-							d = l.add(r, -1)
-						}
-					}
-				}
-				if d != nil {
-					if d0, c, ok := splitT(d); ok {
-						if k, isC := c.isConst(); isC && k == -1 {
-							lf.Trips, lf.TripsOK = d0, true
-						}
-					}
 				}
 			}
 		}
+		if d == nil {
+			continue
+		}
+		d0, c, ok := splitT(d)
+		if !ok {
+			continue
+		}
+		k, isC := c.isConst()
+		if !isC || k == 0 {
+			continue // not a test of the induction variables
+		}
+		tests = append(tests, g.Idx[ifi])
+		switch {
+		case k == -1:
+			lf.Trips, lf.TripsOK = d0, true
+		case k < 0 && f.Op != token.NEQ:
+			// stay while d0 - s*T > 0: ceil(d0/s) iterations
+			if sh, ok := log2(uint64(-k)); ok {
+				lf.Trips, lf.TripsOK = pCdiv(sh, d0), true
+			}
+		}
+		lf.Exit = g.Idx[ifi]
+	}
+	if len(tests) != 1 {
+		lf.TripsOK = false // no test, or several tests of the induction variables
 	}
 	return lf, true
 }
